@@ -16,6 +16,22 @@ let () = iter_lines (fun line ->
     | ["catb"; nul; a; len; n; ok] -> let r = catb (mk nul a len) (zeros (min (int_of_string n) 5000)) (zs n) (ok = "1") in show r.r_ok r.r_sa
     | ["copyb"; nul; a; len; n; ok] -> let r = copyb (mk nul a len) (zeros (min (int_of_string n) 5000)) (zs n) (ok = "1") in show r.r_ok r.r_sa
     | ["append"; nul; a; len; ok] -> let r = append (mk nul a len) N0 (ok = "1") in show r.r_ok r.r_sa
+    | ["dns"; kind; want; resp] ->
+        (* the record walk of dns.c on one response: "S" (resolve: DNS_SOFT) | "<results e.g. KGKS>;<largest index read or -1>;<nreads>"
+           K = skipped (0), G = got (1), S = DNS_SOFT, E = end (2); dn_expand = the simple-name stand-in *)
+        let bl = List.map (fun b -> z_of_int (int_of_n b)) (bytes_of_hex resp) in
+        let arr = Array.of_list bl in
+        let rlen = z_of_int (Array.length arr) in
+        let buf p = let i = int_of_z p in if i >= 0 && i < Array.length arr then arr.(i) else z_of_int 0 in
+        let dn = dn_simple buf rlen in
+        let k = (match kind with "ip" -> KIp | "mx" -> KMx | _ -> KName) in
+        (match resolve_walk buf rlen dn with
+         | (None, _) -> "S"
+         | (Some s0, _) ->
+             let fuel = nat_of_int (1 + max 0 (int_of_z s0.numanswers)) in
+             let (rs, rd) = walk buf rlen dn true fuel k (zs want) s0 in
+             let c = function FSoft -> "S" | FEnd -> "E" | FSkip -> "K" | FGot -> "G" in
+             String.concat "" (List.map c rs) ^ ";" ^ string_of_int (List.fold_left (fun m x -> max m (int_of_z x)) (-1) rd) ^ ";" ^ string_of_int (List.length rd))
     | ["getlen"; s] -> (match getlen (List.map (fun b -> z_of_int (int_of_n b)) (bytes_of_hex s)) with
         | GOk (v, _) -> "ok " ^ string_of_int (int_of_z v) | GResources -> "res" | GBadproto -> "bad" | GEof -> "eof")
     | ["rcpt"; l; b; rl] -> (match rcpt_decide (zs l) (zs b) (if rl = "-" then None else Some (zs rl)) with
